@@ -8,17 +8,17 @@ package ops
 //@   ensures result >= 0 && (result == x || result == 0 - x)
 
 //@ func AllInRange
-//@   tags C07,C08,C09
+//@   tags C07,C08,C09,C02
 //@   ensures result <==> (forall k :: 0 <= k && k < len(arr) ==> min <= arr[k] && arr[k] <= max)
 //@   loop 1 invariant forall k :: 0 <= k && k < $i ==> min <= arr[k] && arr[k] <= max
 
 //@ func HasDuplicates
-//@   tags C07
+//@   tags C07,C02
 //@   ensures result <==> (exists k :: 0 <= k && k + 1 < len(arr) && arr[k] == arr[k+1])
 //@   loop 1 invariant len(arr) >= 1 && prev == arr[$i] && (forall k :: 0 <= k && k < $i ==> arr[k] != arr[k+1])
 
 //@ func OffsetArrayIfNegative
-//@   tags C07,C08
+//@   tags C07,C08,C02
 //@   modifies arr[*]
 //@   ensures forall k :: 0 <= k && k < len(arr) ==> arr[k] == ite(old(arr[k]) < 0, old(arr[k]) + offset, old(arr[k]))
 //@   loop 1 invariant forall k :: 0 <= k && k < $i ==> arr[k] == ite(old(arr[k]) < 0, old(arr[k]) + offset, old(arr[k]))
@@ -296,13 +296,13 @@ package ops
 //@   ensures error_has_nil_tensor: err != nil ==> result == nil || (len(result) == 1 && result[0] == nil)
 
 //@ func Or$1
-//@   tags C03
+//@   tags C03,C02
 //@   ensures result <==> (a || b)
 //@ func And$1
-//@   tags C03
+//@   tags C03,C02
 //@   ensures result <==> (a && b)
 //@ func Xor$1
-//@   tags C03
+//@   tags C03,C02
 //@   ensures result <==> (a != b)
 
 //@ func applyBooleanBinaryOperator
@@ -350,12 +350,12 @@ package ops
 // Shape helpers (C07, C08, C09)
 
 //@ func NElements
-//@   tags C07,C04,C06
+//@   tags C07,C04,C06,C02
 //@   ensures result == nelems(shp)
 //@   loop 1 invariant nElem == prod(arr(shp), off(shp), $i)
 
 //@ func AnyToIntSlice
-//@   tags C07,C08,C09,C11
+//@   tags C07,C08,C09,C11,C02
 //@   ensures unsupported_refused: typeof(value) != tagof("[]int8") && typeof(value) != tagof("[]int16") && typeof(value) != tagof("[]int32") && typeof(value) != tagof("[]int64") ==> err != nil && result == nil
 //@   ensures int64s: typeof(value) == tagof("[]int64") ==> err == nil && len(result) == len(unbox(value, "[]int64")) && (result == nil || fresh(result)) &&
 //@          (forall k :: 0 <= k && k < len(result) ==> result[k] == unbox(value, "[]int64")[k])
